@@ -33,7 +33,7 @@ SPECS = {
                        'weights': {'call': 90, 'load': 1, 'dump': 1, 'clear': 0.3, 'archived': 0.5, 'setarch': 0.3,
                                    'archset': 1, 'lookup': 1, 'key': 1, 'info': 1}, 'p_prologue': 0.1}),
     'C07': dict(quick=(900, 70), thorough=(60000, 110),
-                focus={'backends': ['dictarch', 'dictarch', 'dictarch', 'file', 'dir', 'sql'],
+                focus={'backends': ['dictarch', 'dictarch', 'dictarch', 'file', 'dir', 'sql', 'flaky', 'flaky'],
                        'algs': ['no', 'no'] + BOUNDED * 2 + ['inf'], 'maxsizes': [1, 2, 2, 3, 4, 5],
                        'weights': {'clear': 1, 'setarch': 1, 'archived': 1, 'archset': 7}, 'p_restage': 0.25, 'p_stale': 0.35}),
     'C15': dict(quick=(900, 70), thorough=(50000, 110),
@@ -42,8 +42,8 @@ SPECS = {
                        'keymaps': ['hash', 'hash', 'hash', 'raw', 'raw', 'str', 'md5', 'default', 'pickle', 'hash-typed', 'str-nf',
                                    'md5-typed', 'pickle-std', 'raw-typed']}),
     'C16': dict(quick=(1000, 60), thorough=(60000, 100),
-                focus={'p_raising': 0.9, 'p_special': 0.85,
-                       'keymaps': ['hash', 'raw', 'raw', 'str', 'pickle', 'md5', 'default', 'raw-nf', 'str-nf',
+                focus={'p_raising': 0.9, 'p_special': 0.85, 'p_special_raises': 0.6, 'p_special_call': 0.2,
+                       'keymaps': ['hash', 'hash', 'hash', 'hash-typed', 'raw', 'raw', 'str', 'pickle', 'md5', 'default', 'raw-nf', 'str-nf',
                                    'pickle-std', 'pickle-std', 'pickle-std']}),
     'C18': dict(quick=(800, 60), thorough=(50000, 100),
                 focus={'weights': {'lookup': 14, 'key': 10, 'info': 4}, 'p_special': 0.4, 'p_float': 0.4}),
@@ -242,6 +242,40 @@ def jsonable_res(res):
             'last_records': recs}
 
 
+def reuse_session():
+    """memo = xxx_cache(...); f1 = memo(a); f2 = memo(b): hit/miss/load are counted per function"""
+    import klepto
+    import klepto.safe
+    problems = []
+    for mod in (klepto, klepto.safe):
+        for name in ('lru_cache', 'lfu_cache', 'mru_cache', 'rr_cache', 'inf_cache', 'no_cache'):
+            cls = getattr(mod, name)
+            d = cls() if name in ('inf_cache', 'no_cache') else cls(maxsize=5)
+
+            def fa(x):
+                return ('a', x)
+
+            def fb(x):
+                return ('b', x)
+            f1, f2 = d(fa), d(fb)
+            tag = '%s.%s' % (mod.__name__, name)
+            for x in (1, 2, 1):
+                f1(x)
+            if tuple(f2.info())[:3] != (0, 0, 0):
+                problems.append('%s: a second function decorated by the same decorator object reports %r before its first call' % (tag, tuple(f2.info())[:3]))
+                continue
+            s1 = tuple(f1.info())[:3]
+            for x in ('p', 'q', 'p'):
+                f2(x)
+            if tuple(f1.info())[:3] != s1:
+                problems.append('%s: calls of one function changed the statistics of another decorated by the same decorator object (%r -> %r)' % (tag, s1, tuple(f1.info())[:3]))
+                continue
+            f2.clear()
+            if tuple(f1.info())[:3] != s1:
+                problems.append('%s: clear() of one function reset the statistics of another decorated by the same decorator object' % tag)
+    return problems[:3]
+
+
 def run_property(prop, level='proof', technique_note='', extra_obligations=None):
     t0 = time.time()
     thorough = tier() == 'thorough'
@@ -338,6 +372,18 @@ def run_property(prop, level='proof', technique_note='', extra_obligations=None)
                               % (sig[1], res['div']['step'] if res.get('div') else '?',
                                  res['div']['model'] if res.get('div') else None,
                                  res['div']['impl'] if res.get('div') else None), payload, no_input=True)
+    # ---- one decorator object applied to two functions: the statistics belong to each function (C15)
+    if prop == 'C15':
+        for pr in reuse_session():
+            rep.violation('C15: ' + pr, {'session': 'one decorator instance, two functions', 'what': pr})
+    # ---- recorded known findings with a probe are probed directly: the line is printed only while they reproduce
+    for f in findings:
+        if f.get('property') == prop and f.get('status') == 'known' and f.get('probe') and f['id'] not in [k for k, _ in rep.known]:
+            try:
+                if getattr(__import__('findings'), f['probe'])():
+                    rep.known_finding(f['id'], f['description'])
+            except Exception as e:
+                rep.violation('probe of known finding %s failed: %s' % (f['id'], e), {'broken': 'known-finding probe'}, no_input=True)
     if not proof_ok:
         rep.violation('proof obligation no longer checks: %s' % (pinfo.get('log') or pinfo.get('build_log') or pinfo.get('hygiene')),
                       {'broken': 'coq/Props/%s.v' % prop, 'info': {k: v for k, v in pinfo.items() if k != 'print_assumptions'}},
